@@ -143,6 +143,10 @@ pub open spec fn concat_all(parts: Seq<Str>, n: int) -> Seq<char>
 {
     if n <= 0 { Seq::<char>::empty() } else { concat_all(parts, n - 1).add(parts[n - 1]@) }
 }
+// unfolding of concat_all for the literal-length vectors produced by R6 (verified)
+pub broadcast proof fn lemma_concat_all_unfold(parts: Seq<Str>, n: int)
+    ensures #[trigger] concat_all(parts, n) == (if n <= 0 { Seq::<char>::empty() } else { concat_all(parts, n - 1).add(parts[n - 1]@) })
+{ }
 #[verifier::external_body]
 pub fn vx_concat(parts: Vec<Str>) -> (r: Str) ensures r@ == concat_all(parts@, parts@.len() as int) { unimplemented!() }
 impl Str {
